@@ -138,6 +138,8 @@ class HCtx(FreshCtx):
 
     def seed(self):
         s = self.draw_seed()
+        if self.seed_mode != 'generator' and self.rng.random() < 0.03:
+            s = -1 - int(self.rng.integers(0, 5))       # a negative integer is rejected by numpy: always, not now and then
         if self.seed_mode == 'generator':
             if self.transplant:
                 # a generator with another past (other seed, children spawned) whose STATE is then set to that of a fresh
